@@ -175,7 +175,8 @@ pub fn check_c01(cx: &mut Ctx<'_, '_>) {
                 .iter()
                 .map(|a| format!("{}{}{}{:?}", u8::from(a.step_failed), u8::from(a.hook_failed), u8::from(a.skipped), a.retries.map(|r| r.1.min(1))))
                 .collect();
-            cx.t.nontrivial("C01", fnv(&format!("{name}|{}", shape.join(","))));
+            let _ = name;
+            cx.t.nontrivial("C01", fnv(&shape.join(",")));
         }
         if *actual != exp {
             let legacy = legacy_verdict(an, *fos);
